@@ -33,6 +33,9 @@ instance : Append Contrib := ⟨Contrib.append⟩
 
 def Call.lname (c : Call) : Str := asciiLower c.name
 def Call.singles (c : Call) : List Str := c.toCmd.singles
+/-- all arguments in source order, parenthesised groups as `( a b )` (`argument_text`): what `process_add_test` and
+    `process_generic_command` read -/
+def Call.allTexts (c : Call) : List Str := argTexts c.toCmd.args
 
 /-- cleaned text of an optional doccomment (`""` for an undocumented command) -/
 def docTextOf : Option DocC → Str
@@ -86,7 +89,7 @@ def Item.spec (cfg : Cfg) (ctx : ClsCtx) : Item → Contrib
     else if n = lit "option" then
       if documented || cfg.inclOption then { top := [.opt (s.headD []) d (s.getD 1 []) s[2]?] } else {}
     else if n = lit "add_test" then
-      if documented || cfg.inclAddTest then { top := [.ctest (nameOf s).1 d (ctestParams s)] } else {}
+      if documented || cfg.inclAddTest then { top := [.ctest (nameOf call.allTexts).1 d (ctestParams call.allTexts)] } else {}
     else if n = lit "cpp_attr" then
       if ctx = .shown && (documented || cfg.inclCppAttr) then
         { attrs := [{ name := s.getD 1 [], doc := d, parentClass := s.headD [], dflt := s[2]? }] }
@@ -173,7 +176,7 @@ def Item.wf (inClass : Bool) : Item → Bool
     (n != lit "set" || s.length ≥ 1) &&
     (n != lit "option" || (2 ≤ s.length && s.length ≤ 3)) &&
     (n != lit "cpp_attr" || (s.length ≥ 2 && inClass)) &&
-    (n != lit "add_test" || (s.length ≥ 2 && nameOk s))
+    (n != lit "add_test" || (call.allTexts.length ≥ 2 && nameOk call.allTexts))
   | .block _ o body c =>
     let n := o.lname
     (closerFor n).contains c.lname &&
